@@ -5,7 +5,7 @@ from . import c06
 
 ID = 'C12'
 LEVEL = 'exploration'
-RUNS = {'quick': 1600}
+RUNS = {'quick': 6400}
 BUDGET_S = {'thorough': 600}
 WANT = {'C12'}
 CMD_WEIGHTS = {'filter': 8, 'breakpoint': 6, 'list': 3, 'connection': 1, 'other': 1}
